@@ -672,6 +672,300 @@ def args_defineOwnPropertyStr : List String := [
   "return a.baseObject.defineOwnProperty(KEY, descr, throw)"
 ]
 
+/-! String exotic object (string.go), integer-indexed exotic objects (typedarrays.go), lazy function prototype (func.go) -/
+def str_getOwnPropStr : List String := [
+  "i := strToGo(KEY)",
+  "if i >= 0 && i < s.length",
+  "val := s._get(i)",
+  "return &valueProperty{ value: val, enumerable: true, }",
+  "end",
+  "return s.baseObject.getOwnProp(KEY)"
+]
+
+def str_getOwnPropIdx : List String := [
+  "i := int64(KEY)",
+  "if i >= 0 && i < int64(s.length)",
+  "val := s._get(int(i))",
+  "return &valueProperty{ value: val, enumerable: true, }",
+  "end",
+  "return s.baseObject.getOwnProp(KEY.string())"
+]
+
+def str_setOwnStr : List String := [
+  "i := strToGo(KEY)",
+  "if i >= 0 && i < s.length",
+  "typeErrorResult(throw)",
+  "return false",
+  "end",
+  "return s.baseObject.setOwn(KEY, val, throw)"
+]
+
+def str_setOwnIdx : List String := [
+  "i := int64(KEY)",
+  "if i >= 0 && i < int64(s.length)",
+  "typeErrorResult(throw)",
+  "return false",
+  "end",
+  "return s.baseObject.setOwn(KEY.string(), val, throw)"
+]
+
+def str_defineOwnPropertyStr : List String := [
+  "i := strToGo(KEY)",
+  "if i >= 0 && i < s.length",
+  "_, ok := s._defineOwnProperty(KEY, &valueProperty{value: s._get(i), enumerable: true}, descr, throw)",
+  "return ok",
+  "end",
+  "return s.baseObject.defineOwnProperty(KEY, descr, throw)"
+]
+
+def str_defineOwnPropertyIdx : List String := [
+  "return s.defineOwnProperty(KEY.string(), descr, throw)"
+]
+
+def str_deleteStr : List String := [
+  "i := strToGo(KEY)",
+  "if i >= 0 && i < s.length",
+  "typeErrorResult(throw)",
+  "return false",
+  "end",
+  "return s.baseObject.delete(KEY, throw)"
+]
+
+def str_deleteIdx : List String := [
+  "i := int64(KEY)",
+  "if i >= 0 && i < int64(s.length)",
+  "typeErrorResult(throw)",
+  "return false",
+  "end",
+  "return s.baseObject.delete(KEY.string(), throw)"
+]
+
+def str_hasOwnPropertyStr : List String := [
+  "i := strToGo(KEY)",
+  "if i >= 0 && i < s.length",
+  "return true",
+  "end",
+  "return s.baseObject.hasOwnProperty(KEY)"
+]
+
+def str_hasOwnPropertyIdx : List String := [
+  "i := int64(KEY)",
+  "if i >= 0 && i < int64(s.length)",
+  "return true",
+  "end",
+  "return s.baseObject.hasOwnProperty(KEY.string())"
+]
+
+def ta_getOwnPropStr : List String := [
+  "idx, ok := strToIntNum(KEY)",
+  "if ok",
+  "v := a._get(idx)",
+  "if v != nil",
+  "return &valueProperty{ value: v, writable: true, enumerable: true, configurable: true, }",
+  "end",
+  "return nil",
+  "end",
+  "if idx == 0",
+  "return nil",
+  "end",
+  "return a.baseObject.getOwnProp(KEY)"
+]
+
+def ta_getOwnPropIdx : List String := [
+  "v := a._get(toIntClamp(int64(KEY)))",
+  "if v != nil",
+  "return &valueProperty{ value: v, writable: true, enumerable: true, configurable: true, }",
+  "end",
+  "return nil"
+]
+
+def ta_getStr : List String := [
+  "idx, ok := strToIntNum(KEY)",
+  "if ok",
+  "return a._get(idx)",
+  "end",
+  "if idx == 0",
+  "return nil",
+  "end",
+  "return a.baseObject.get(KEY, receiver)"
+]
+
+def ta_getIdx : List String := [
+  "return a._get(toIntClamp(int64(KEY)))"
+]
+
+def ta_setOwnStr : List String := [
+  "idx, ok := strToIntNum(KEY)",
+  "if ok",
+  "a._put(idx, v)",
+  "return true",
+  "end",
+  "if idx == 0",
+  "toNumeric(v)",
+  "return true",
+  "end",
+  "return a.baseObject.setOwn(KEY, v, throw)"
+]
+
+def ta_setOwnIdx : List String := [
+  "a._put(toIntClamp(int64(KEY)), v)",
+  "return true"
+]
+
+def ta_setForeignStr : List String := [
+  "idx, ok := strToIntNum(KEY)",
+  "if ok",
+  "if !a.isValidIntegerIndex(idx)",
+  "return true, true",
+  "end",
+  "else",
+  "if idx == 0",
+  "return true, true",
+  "end",
+  "end",
+  "return a._setForeign(KEY, a.getOwnProp(KEY), v, receiver, throw)"
+]
+
+def ta_setForeignIdx : List String := [
+  "if !a.isValidIntegerIndex(toIntClamp(int64(KEY)))",
+  "return true, true",
+  "end",
+  "return a._setForeign(KEY, trueValIfPresent(a.hasOwnProperty(KEY)), v, receiver, throw)"
+]
+
+def ta_hasOwnPropertyStr : List String := [
+  "idx, ok := strToIntNum(KEY)",
+  "if ok",
+  "return a._has(idx)",
+  "end",
+  "if idx == 0",
+  "return false",
+  "end",
+  "return a.baseObject.hasOwnProperty(KEY)"
+]
+
+def ta_hasOwnPropertyIdx : List String := [
+  "return a._has(toIntClamp(int64(KEY)))"
+]
+
+def ta_hasPropertyStr : List String := [
+  "idx, ok := strToIntNum(KEY)",
+  "if ok",
+  "return a._has(idx)",
+  "end",
+  "if idx == 0",
+  "return false",
+  "end",
+  "return a.baseObject.hasProperty(KEY)"
+]
+
+def ta_hasPropertyIdx : List String := [
+  "return a.hasOwnProperty(KEY)"
+]
+
+def ta_defineIdxProperty : List String := [
+  "if desc.Configurable == FLAG_FALSE || desc.Enumerable == FLAG_FALSE || desc.IsAccessor() || desc.Writable == FLAG_FALSE",
+  "typeErrorResult(throw)",
+  "return false",
+  "end",
+  "_, ok := a._defineOwnProperty(unistring.String(strconv.Itoa(KEY)), a.getOwnProp(valueInt(KEY)), desc, throw)",
+  "if ok",
+  "if !a.isValidIntegerIndex(KEY)",
+  "typeErrorResult(throw)",
+  "return false",
+  "end",
+  "if desc.Value != nil",
+  "a._put(KEY, desc.Value)",
+  "end",
+  "return true",
+  "end",
+  "return ok"
+]
+
+def ta_defineOwnPropertyStr : List String := [
+  "idx, ok := strToIntNum(KEY)",
+  "if ok",
+  "return a._defineIdxProperty(idx, desc, throw)",
+  "end",
+  "if idx == 0",
+  "a.viewedArrayBuf.ensureNotDetached(throw)",
+  "typeErrorResult(throw)",
+  "return false",
+  "end",
+  "return a.baseObject.defineOwnProperty(KEY, desc, throw)"
+]
+
+def ta_defineOwnPropertyIdx : List String := [
+  "return a._defineIdxProperty(toIntClamp(int64(KEY)), desc, throw)"
+]
+
+def fn_addProto : List String := [
+  "if KEY == \"prototype\"",
+  "_, exists := f.values[KEY]",
+  "if !exists",
+  "return f.addPrototype()",
+  "end",
+  "end",
+  "return nil"
+]
+
+def fn_addPrototype : List String := [
+  "proto := f.val.runtime.NewObject()",
+  "proto.self._putProp(\"constructor\", f.val, true, false, true)",
+  "return f._putProp(\"prototype\", proto, true, false, false)"
+]
+
+def fn_getOwnPropStr : List String := [
+  "v := f._addProto(KEY)",
+  "if v != nil",
+  "return v",
+  "end",
+  "return f.baseObject.getOwnProp(KEY)"
+]
+
+def fn_setOwnStr : List String := [
+  "f._addProto(KEY)",
+  "return f.baseObject.setOwn(KEY, val, throw)"
+]
+
+def fn_defineOwnPropertyStr : List String := [
+  "f._addProto(KEY)",
+  "return f.baseObject.defineOwnProperty(KEY, descr, throw)"
+]
+
+def fn_deleteStr : List String := [
+  "f._addProto(KEY)",
+  "return f.baseObject.delete(KEY, throw)"
+]
+
+def fn_hasOwnPropertyStr : List String := [
+  "if f.baseObject.hasOwnProperty(KEY)",
+  "return true",
+  "end",
+  "if KEY == \"prototype\"",
+  "return true",
+  "end",
+  "return false"
+]
+
+def fn_stringKeys : List String := [
+  "if KEY",
+  "_, exists := f.values[\"prototype\"]",
+  "if !exists",
+  "f.addPrototype()",
+  "end",
+  "end",
+  "return f.baseFuncObject.stringKeys(KEY, accum)"
+]
+
+def fn_iterateStringKeys : List String := [
+  "_, exists := f.values[\"prototype\"]",
+  "if !exists",
+  "f.addPrototype()",
+  "end",
+  "return f.baseFuncObject.iterateStringKeys()"
+]
+
 def symLookupPrelude : List String := [
   "var prop Value",
   "if o.symValues != nil",
@@ -733,5 +1027,39 @@ theorem args_getOwnPropStr_expected : args_getOwnPropStr = Expected.args_getOwnP
 theorem args_setOwnStr_expected : args_setOwnStr = Expected.args_setOwnStr := by rfl
 theorem args_deleteStr_expected : args_deleteStr = Expected.args_deleteStr := by rfl
 theorem args_defineOwnPropertyStr_expected : args_defineOwnPropertyStr = Expected.args_defineOwnPropertyStr := by rfl
+theorem str_getOwnPropStr_expected : str_getOwnPropStr = Expected.str_getOwnPropStr := by rfl
+theorem str_getOwnPropIdx_expected : str_getOwnPropIdx = Expected.str_getOwnPropIdx := by rfl
+theorem str_setOwnStr_expected : str_setOwnStr = Expected.str_setOwnStr := by rfl
+theorem str_setOwnIdx_expected : str_setOwnIdx = Expected.str_setOwnIdx := by rfl
+theorem str_defineOwnPropertyStr_expected : str_defineOwnPropertyStr = Expected.str_defineOwnPropertyStr := by rfl
+theorem str_defineOwnPropertyIdx_expected : str_defineOwnPropertyIdx = Expected.str_defineOwnPropertyIdx := by rfl
+theorem str_deleteStr_expected : str_deleteStr = Expected.str_deleteStr := by rfl
+theorem str_deleteIdx_expected : str_deleteIdx = Expected.str_deleteIdx := by rfl
+theorem str_hasOwnPropertyStr_expected : str_hasOwnPropertyStr = Expected.str_hasOwnPropertyStr := by rfl
+theorem str_hasOwnPropertyIdx_expected : str_hasOwnPropertyIdx = Expected.str_hasOwnPropertyIdx := by rfl
+theorem ta_getOwnPropStr_expected : ta_getOwnPropStr = Expected.ta_getOwnPropStr := by rfl
+theorem ta_getOwnPropIdx_expected : ta_getOwnPropIdx = Expected.ta_getOwnPropIdx := by rfl
+theorem ta_getStr_expected : ta_getStr = Expected.ta_getStr := by rfl
+theorem ta_getIdx_expected : ta_getIdx = Expected.ta_getIdx := by rfl
+theorem ta_setOwnStr_expected : ta_setOwnStr = Expected.ta_setOwnStr := by rfl
+theorem ta_setOwnIdx_expected : ta_setOwnIdx = Expected.ta_setOwnIdx := by rfl
+theorem ta_setForeignStr_expected : ta_setForeignStr = Expected.ta_setForeignStr := by rfl
+theorem ta_setForeignIdx_expected : ta_setForeignIdx = Expected.ta_setForeignIdx := by rfl
+theorem ta_hasOwnPropertyStr_expected : ta_hasOwnPropertyStr = Expected.ta_hasOwnPropertyStr := by rfl
+theorem ta_hasOwnPropertyIdx_expected : ta_hasOwnPropertyIdx = Expected.ta_hasOwnPropertyIdx := by rfl
+theorem ta_hasPropertyStr_expected : ta_hasPropertyStr = Expected.ta_hasPropertyStr := by rfl
+theorem ta_hasPropertyIdx_expected : ta_hasPropertyIdx = Expected.ta_hasPropertyIdx := by rfl
+theorem ta_defineIdxProperty_expected : ta_defineIdxProperty = Expected.ta_defineIdxProperty := by rfl
+theorem ta_defineOwnPropertyStr_expected : ta_defineOwnPropertyStr = Expected.ta_defineOwnPropertyStr := by rfl
+theorem ta_defineOwnPropertyIdx_expected : ta_defineOwnPropertyIdx = Expected.ta_defineOwnPropertyIdx := by rfl
+theorem fn_addProto_expected : fn_addProto = Expected.fn_addProto := by rfl
+theorem fn_addPrototype_expected : fn_addPrototype = Expected.fn_addPrototype := by rfl
+theorem fn_getOwnPropStr_expected : fn_getOwnPropStr = Expected.fn_getOwnPropStr := by rfl
+theorem fn_setOwnStr_expected : fn_setOwnStr = Expected.fn_setOwnStr := by rfl
+theorem fn_defineOwnPropertyStr_expected : fn_defineOwnPropertyStr = Expected.fn_defineOwnPropertyStr := by rfl
+theorem fn_deleteStr_expected : fn_deleteStr = Expected.fn_deleteStr := by rfl
+theorem fn_hasOwnPropertyStr_expected : fn_hasOwnPropertyStr = Expected.fn_hasOwnPropertyStr := by rfl
+theorem fn_stringKeys_expected : fn_stringKeys = Expected.fn_stringKeys := by rfl
+theorem fn_iterateStringKeys_expected : fn_iterateStringKeys = Expected.fn_iterateStringKeys := by rfl
 
 end GojaModel.C04.Tie
